@@ -132,4 +132,125 @@ theorem diag_updateActionStatusByEvent {rm} (e : Match.Ev) : Diag rm (updateActi
     · exact Sim2U.pure rfl h2
 
 
+
+/-! ### outgoing events, releasing actions, the restart of activated flows -/
+
+theorem diag_appendOutgoing {rm} (e : Match.Ev) :
+    Diag rm (modifyRest fun r => { r with outgoing := r.outgoing ++ [e] }) :=
+  fun _ _ h => ⟨rfl, { h with outgoing := by simp [h.outgoing] }⟩
+
+theorem diag_generateUmimEvent {rm} (e : Match.Ev) : Diag rm (generateUmimEvent e) := by
+  unfold CoreVM.generateUmimEvent
+  extract_lets e0 jp
+  have hjp : ∀ r e', Diag rm (jp r e') := by
+    intro r e'
+    simp only [jp]
+    repeat' (first
+      | with_reducible exact Diag.pure _
+      | with_reducible exact diag_pyRaise _ _
+      | with_reducible exact diag_unsupported _
+      | with_reducible exact diag_freshUid
+      | with_reducible exact diag_appendOutgoing _
+      | with_reducible exact diag_updateActionStatusByEvent _
+      | with_reducible refine Diag.bind ?_ (fun _ => ?_)
+      | split)
+  repeat' (first
+    | with_reducible exact diag_pyRaise _ _
+    | with_reducible exact diag_unsupported _
+    | with_reducible exact diag_freshUid
+    | with_reducible refine Diag.bind ?_ (fun _ => ?_)
+    | split
+    | dsimp only)
+  all_goals exact hjp () _
+
+
+
+/-- stop an action when its last scope leaves — for an action a kept instance refers to (`EndScope`, `_abort_flow`, `_finish_flow`
+    iterate over `flow_state.action_uids` of the flow they are about) -/
+theorem sim_releaseAction {rm s s'} (h : Aged rm s s') {f : FUid} {x : InstX} (hk : keepB rm f = true)
+    (hx : OMap.lookup f s.r.fx = some x) {au : String} (hau : au ∈ x.actionUids) :
+    Sim2U rm Eq (releaseAction au) (releaseAction au) s s' := by
+  unfold CoreVM.releaseAction
+  have hl := h.actionsKept f x hk hx au hau
+  refine Sim2U.bind (ρ := Eq) ⟨hl.symm, h⟩ ?_
+  intro o o' s1 s1' _ _ ho h1
+  subst ho
+  refine (?_ : Diag rm _) s1 s1' h1
+  repeat' (first
+    | with_reducible exact Diag.pure _
+    | with_reducible exact diag_pyRaise _ _
+    | with_reducible exact diag_setAction _
+    | with_reducible exact diag_generateUmimEvent _
+    | with_reducible refine Diag.bind ?_ (fun _ => ?_)
+    | split
+    | dsimp only)
+
+/-- the `FlowFailed` event of a kept instance -/
+theorem diag_failedEvent {rm} {f : FUid} (hk : keepB rm f = true) (scores : List Score) : Diag rm (failedEvent f scores) := by
+  unfold CoreVM.failedEvent
+  exact Diag.bind (diag_flowObjOf hk) fun _ => Diag.pure _
+
+
+theorem XRel.newInstanceStarted {rm c c' x x'} (h : XRel rm c c' x x') : x'.newInstanceStarted = x.newInstanceStarted := by
+  have := congrArg InstX.newInstanceStarted h.eq
+  simpa [agedX] using this
+
+theorem diag_pushLeft_mark {rm} {f : FUid} (hk : keepB rm f = true) (e : Event) :
+    Diag rm (do pushLeftEvent e; modInstX f fun x => { x with newInstanceStarted := true }) := by
+  intro s s' h
+  refine Sim2U.bind (Sim2.toU (sim_pushLeftEvent h e)) ?_
+  intro _ _ s4 s4' _ _ _ h4
+  refine ⟨rfl, h4.modInstX hk _ _ ?_ (fun _ => rfl)⟩
+  intro y y' hy
+  refine ⟨?_, hy.stamp⟩
+  have := congrArg (fun z : InstX => { z with newInstanceStarted := true }) hy.eq
+  simpa [agedX] using this
+
+/-- **the restart of an activated flow** at the end of `_abort_flow` / `_finish_flow`, for a kept instance whose parent (if it
+    is still activated) is kept: same `StartFlow` event pushed to the front of the queue, same flag -/
+theorem sim_restartActivated {rm s s'} (h : Aged rm s s') (hp : ActParentsKept rm s) {f : FUid} (hk : keepB rm f = true)
+    (scores : List Score) (deactivate : Bool) :
+    Sim2U rm Eq (restartActivated f scores deactivate) (restartActivated f scores deactivate) s s' := by
+  unfold CoreVM.restartActivated
+  refine Sim2U.bind (Sim2.toU (Sim2.of_rel (ro_getInstX f) (ro_getInstX f) h (h.rel_getInstX hk))) ?_
+  intro x x' s1 s1' e1 e1' hx h1
+  have hs1 : s1 = s := (ro_getInstX f).state_eq e1
+  have hs1' : s1' = s' := (ro_getInstX f).state_eq e1'
+  subst hs1; subst hs1'
+  have hlook : OMap.lookup f s1.r.fx = some x := res_getInstX (by unfold res; rw [e1])
+  rw [hx.activated, hx.newInstanceStarted, hx.parentUid, hx.flowId]
+  by_cases hc : (!deactivate && decide (x.activated > 0) && !x.newInstanceStarted) = true
+  · simp only [hc, if_true]
+    have hact : x.activated > 0 := by
+      simp only [Bool.and_eq_true, decide_eq_true_eq] at hc
+      exact hc.1.2
+    refine Sim2U.bind (diag_flowObjOf hk s1 s1' h1) ?_
+    intro o o' s2a s2a' _ _ ho h2a
+    subst ho
+    refine Sim2U.bind (diag_flowStartEvent o [] s2a s2a' h2a) ?_
+    intro ev ev' s2 s2' _ _ hev h2
+    subst hev
+    cases hpu : x.parentUid with
+    | none =>
+      simp only
+      refine Sim2U.bind (ρ := Eq) (Sim2U.pure rfl h2) ?_
+      intro src src' s3 s3' _ _ hsrc h3
+      subst hsrc
+      exact diag_pushLeft_mark hk _ s3 s3' h3
+    | some p =>
+      simp only
+      have hkp := hp f x hk hlook hact p hpu
+      refine Sim2U.bind (sim_getInstX? h2 p) ?_
+      intro po po' s3 s3' _ _ hpo h3
+      simp only [hkp, if_true] at hpo
+      cases po <;> cases po' <;> simp only [ORel] at hpo
+      · exact Sim2U.bind (ρ := fun (_ _ : FUid) => True) (Sim2U.throw _ h3) (fun _ _ _ _ e _ _ _ => by cases e)
+      · simp only [hpo.flowId]
+        refine Sim2U.bind (ρ := Eq) (Sim2U.pure rfl h3) ?_
+        intro src src' s4 s4' _ _ hsrc h4
+        subst hsrc
+        exact diag_pushLeft_mark hk _ s4 s4' h4
+  · simp only [hc]
+    exact Sim2U.pure rfl h1
+
 end NemoVerif.C11.Bisim
